@@ -84,6 +84,8 @@ def limit(self: Stairs, x, side, include_index=False) -> pd.Series:
         else:
             values = self.initial_value
         if include_index:
+            if not pd.api.types.is_list_like(passed_x):
+                passed_x = [passed_x]
             values = pd.Series(values, index=passed_x)
         return values
     amended_values = np.append(
@@ -95,6 +97,8 @@ def limit(self: Stairs, x, side, include_index=False) -> pd.Series:
         x = pd.Series([x]).values[0]
     values = amended_values[np.searchsorted(self._data.index.values, x, side=side) - 1]
     if include_index:
+        if not pd.api.types.is_list_like(passed_x):
+            passed_x = [passed_x]
         values = pd.Series(values, index=passed_x)
     return values
 
